@@ -216,6 +216,34 @@ pub fn run(cfg: &Cfg) -> Stats {
             }
         }
     }
+    // small fixed captures: reverse video (and its combinations) in a capture that sets no background anywhere, no styles
+    // at all, only line breaks, a single character
+    if pi == 0 {
+        let fixed: [&str; 10] = [
+            "\x1b[7m INFO \x1b[0m started\n",
+            "\x1b[1;7mX\x1b[0;1mY",
+            "plain \x1b[7;31mred-inverted\x1b[0m tail\nnext \x1b[7mline\x1b[m",
+            "\x1b[7;4;58;5;196mu\x1b[0m",
+            "no styles at all\nsecond line",
+            "\n\n\n",
+            "x",
+            "",
+            "\x1b[31m",
+            "\x1b[7m\n\x1b[0m",
+        ];
+        for (fi, input) in fixed.iter().enumerate() {
+            for ck in [0u64, 5, 11, 16] {
+                let tc = make_cfg(ck);
+                st.eval();
+                st.nontrivial_hash(hash64(format!("{input}{tc:?}").as_bytes()));
+                st.count("fixed_small_captures");
+                match document(3_000_000_000 + (fi as u64) * 100 + ck, input, &tc) {
+                    Ok(d) => writeln!(out, "{}", d.to_string()).expect("write"),
+                    Err(p) => st.viol("c14:panic", format!("render_svg panicked: {p}"), Case::new("c14").b(input.as_bytes()).n(ck as i64)),
+                }
+            }
+        }
+    }
     // one capture larger than 1 MiB with CR LF line endings, a CR sitting on byte 2^20 - 1 (block sizes inside the renderer)
     if cfg.tier != Tier::Tiny && pi == 0 {
         let mut doc = String::from("Z");
